@@ -17,7 +17,7 @@ def _clear_caches(ns_):
             cc_()
 
 PROPERTY = "C14"
-REGIONS = ["subclass-items", "through-select", "second-select-on-the-same-object", "empty-priority-dictionary", "defaulted-xor", "defaulted-any", "no-default", "user-positive", "user-negative", "user-tie", "two-levels", "user-zero", "user-on-compound",
+REGIONS = ["second-dictionary-of-one-call", "subclass-items", "through-select", "second-select-on-the-same-object", "empty-priority-dictionary", "defaulted-xor", "defaulted-any", "no-default", "user-positive", "user-negative", "user-tie", "two-levels", "user-zero", "user-on-compound",
            "prio-minus-2-column", "key-strictly-ordered-pair-exists"]
 BOUNDS = ("CFG family: configurators with defaulted/plain cc.Any and cc.Xor, AtMost, All, Any, Xor, Imply rules, nesting <=2, <=6 boolean items, "
           "<=16 columns (concrete: the model crosses the Rust encoder, M7); priority dictionary over <=3 seeded ids with symbolic values |p|<=20 "
@@ -58,6 +58,8 @@ def instantiations(tier, seed):
             # the objective as the solver receives it from select(); and the same after an earlier select() on the same object
             keys2 = rng.sample(its, min(len(its), 2))
             out.append({"model": c, "prio_keys": keys2, "via": "select"})
+            if k % 2 == 1 or tier == "thorough":
+                out.append({"model": c, "prio_keys": keys2, "via": "cfgselect-multi"})
             if k % 2 == 0 or tier == "thorough":
                 out.append({"model": c, "prio_keys": keys2, "via": "select", "repeat": True})
     from sx.families import V, AM
@@ -127,7 +129,12 @@ def run_inst(spec, run):
                 return [(None, 0, 4) for _ in got[-1]]
             try:
                 P = c1.ge_polyhedron
-                if spec.get("via") == "select":
+                if spec.get("via") == "cfgselect-multi":
+                    # the configurator's own select() with SEVERAL priority dictionaries in one call: every dictionary gets its own objective
+                    first = {cfg.items(model_spec)[0]: 1}
+                    list(c1.select(dict(first), dict(prios), solver=rec, only_leafs=False))
+                    w = got[-1][1:2]
+                elif spec.get("via") == "select":
                     if rep:
                         # an earlier select() on the same object with another dictionary over the same ids; hash values in decided mode, so that
                         # -1 and -2 hash alike inside the code under test as they do in CPython
@@ -141,6 +148,15 @@ def run_inst(spec, run):
                 err = "%s: %s" % (type(e).__name__, e)
             finally:
                 S.HASH_MODE = "structural"
+            # the oracle needs the weak order of the user priorities fixed per path; normally the code under test has decided it already
+            # (literal cache: no new forks then); if the code never looked at a priority, the harness decides it here
+            for k_ in keys:
+                bool(S.SymBool(prios[k_].e > 0))
+                bool(S.SymBool(prios[k_].e < 0))
+            for a_, b_ in itertools.combinations(keys, 2):
+                za, zb = pl_abs(prios[a_].e), pl_abs(prios[b_].e)
+                bool(S.SymBool(za < zb))
+                bool(S.SymBool(za == zb))
             return dict(prios=prios, prios0=prios0, x=x, y=y, w=w, err=err)
 
         def on_path(ctx, d):
@@ -228,6 +244,8 @@ def run_inst(spec, run):
                 run.obligation(ctx, "top-priority-item-wins", z3.And(x[j].e == 1, y[j].e == 0, wy >= wx), conc)
             if spec.get("via") == "select":
                 run.region("through-select")
+            if spec.get("via") == "cfgselect-multi":
+                run.region("second-dictionary-of-one-call")
             ext = None
             if d["prios0"] is not None:
                 run.region("second-select-on-the-same-object")
